@@ -10,5 +10,6 @@ CONSTANTS
   MaxFaults = 0
   TightExists = TRUE
   MaxHist = 30
-INVARIANTS Emit
+INVARIANTS Emit TypeOK CallBound BatchIsTodo NoDupMerged
+PROPERTIES Refines
 CHECK_DEADLOCK FALSE
